@@ -266,6 +266,31 @@ for hname in sorted(helpers_tbl.keys()):
                          f"{bad[1]} is reachable at {bad[0]}",
                          {"helper": hname, "nargs": n, "args": [repr(x)[:40] for x in args], "path": bad[0]},
                          f"{bad[1]}@{hname}")
+# ---- assumed contracts of the four re.sub calls in lua_loader, validated against CPython's re by enumeration
+import re as _re
+RALPH = ["a", ".", "/", "\x01", ":", " "]
+RL = 6 if tier == "quick" else 8
+src_ll = inspect.getsource(luaexec.lua_loader)
+for pat in (r're.sub(r"[\0-\037]", "", path)', r're.sub(r"//+", "/", path)', r're.sub(r"\.\.+", ".", path)',
+            r're.sub(r"^/+", "", path)'):
+    if pat not in src_ll:
+        fail("c06:regex-contract#lua_loader-pattern-text", f"{pat} not found in lua_loader", {"pattern": pat}, "drift")
+nre = 0
+for n in range(0, RL + 1):
+    for tup in itertools.product(RALPH, repeat=n):
+        t = "".join(tup)
+        nre += 1
+        r1 = _re.sub(r"[\0-\037]", "", t)
+        if len(r1) > len(t) or (not any(ord(ch) < 32 for ch in t) and r1 != t):
+            fail("c06:regex-contract#strip-controls", repr(t), {"s": t}, "regex")
+        if "//" in _re.sub(r"//+", "/", t):
+            fail("c06:regex-contract#collapse-slashes", repr(t), {"s": t}, "regex")
+        if ".." in _re.sub(r"\.\.+", ".", t):
+            fail("c06:regex-contract#collapse-dots", repr(t), {"s": t}, "regex")
+        r4 = _re.sub(r"^/+", "", t)
+        if r4.startswith("/") or not t.endswith(r4):
+            fail("c06:regex-contract#strip-leading-slashes", repr(t), {"s": t}, "regex")
+evaluations += nre
 import shutil
 shutil.rmtree(tmp, ignore_errors=True)
 emit({"evaluations": evaluations, "distinct_nontrivial": len(distinct),
@@ -276,4 +301,5 @@ emit({"evaluations": evaluations, "distinct_nontrivial": len(distinct),
                f"every non-network helper called under pcall with all argument lists of length <= {2 if tier == 'quick' else 3} "
                f"over {len(pool)} hostile values ({nerr} raised; object graph of each error walked through the filter; "
                f"not exercised: {skipped_helpers}); "
+               f"re.sub contracts of lua_loader on {nre} strings (length <= {RL}); "
                "Lua-side whitelists are NOT exercised (sandbox cannot start offline)"})
